@@ -5,6 +5,13 @@ From Gen Require Import SerdeSchemas.
 From C10 Require Model.
 From C18 Require Import Serde SerdeSpec SerdeProofs SpecSchemas.
 
+(** ruma-common/src/identifiers/session_id.rs validate_session_id: 1..255 bytes of [0-9a-zA-Z.=_-] *)
+Definition session_id_byte (b : N) : bool :=
+  ((48 <=? b) && (b <=? 57)) || ((65 <=? b) && (b <=? 90)) || ((97 <=? b) && (b <=? 122))
+  || (b =? 46) || (b =? 61) || (b =? 95) || (b =? 45).
+Definition valid_session_id (s : str) : bool :=
+  negb (255 <? N.of_nat (List.length s)) && forallb session_id_byte s && negb (match s with [] => true | _ => false end).
+
 Definition id_valid (c : N) (s : str) : bool :=
   match c with
   | 0 => true
@@ -18,6 +25,7 @@ Definition id_valid (c : N) (s : str) : bool :=
   | 8 => is_ok (C10.Model.validate_client_secret s)
   | 9 => is_ok (C10.Model.validate_room_version_id s)
   | 10 => is_ok (C10.Model.validate_key_id C10.Model.KSigningVersion s)
+  | 11 => valid_session_id s
   | _ => false
   end%N.
 
